@@ -14,7 +14,7 @@ pub fn run(ctx: &Ctx) -> i32 {
          under a random surface style, each confirmed by the dynamic convention monitor on 3 executions of the reference machine; \
          distinct_nontrivial = distinct program texts with >= 20 instructions and >= 1 call whose premise check passed",
     );
-    rep.assume("top-level code reads only a0/a1 and its own definitions (the tool documents a0,a1 as the program arguments); it never reads sp/ra/sN before writing them");
+    rep.assume("top-level code reads only a0/a1, the stack pointer the environment hands it (it may build a frame below it, never given back) and its own definitions; it never reads ra/sN before writing them");
     rep.assume("a program whose premise check (generator audit by the dynamic convention monitor) fails is a generator problem, counted as premise_failed, never a violation");
     let per_shard: usize = ctx.tier.pick(200, 6000);
     let prof = Profile::conforming();
